@@ -73,6 +73,7 @@ type run struct {
 	consDone chan struct{}
 	pause    atomic.Bool // the consumer stops receiving while set
 	stopRet  atomic.Bool // Stop has returned (and StopEnd is logged)
+	shared   atomic.Bool // scenario E: every client uses observation domain 1; client c numbers its messages 100000*c + i
 }
 
 func start(w *vt.Writer, proto string, n int) *run {
@@ -108,7 +109,11 @@ func start(w *vt.Writer, proto string, n int) *run {
 			select {
 			case m := <-cp.GetMsgChan():
 				r.received.Add(1)
-				w.Emit(vt.Ev{"e": "Deliver", "c": int(m.GetObsDomainID()), "i": int(m.GetSequenceNum()), "late": late})
+				dc, di := int(m.GetObsDomainID()), int(m.GetSequenceNum())
+				if r.shared.Load() {
+					dc, di = di/100000, di%100000
+				}
+				w.Emit(vt.Ev{"e": "Deliver", "c": dc, "i": di, "late": late})
 				r.logged.Add(1)
 				perturb(rr)
 			case <-r.stopCons:
@@ -373,6 +378,100 @@ func main() {
 				scen++
 			}
 		}
+	}
+	// (E) several exporters share ONE observation domain and template id; one of them keeps re-sending the
+	// (unchanged) template while the others stream data decoded with it
+	nE := 2
+	if thorough {
+		nE = 8
+	}
+	for _, proto := range []string{"tcp", "udp"} {
+		for k := 0; k < nE; k++ {
+			n := 3
+			arm(w, "scenario E "+proto)
+			ru := start(w, proto, n)
+			ru.shared.Store(true)
+			var wg sync.WaitGroup
+			for c := 1; c <= n; c++ {
+				wg.Add(1)
+				go func(c int) {
+					defer wg.Done()
+					conn, err := ru.dial()
+					if err != nil {
+						return
+					}
+					defer conn.Close()
+					for i := 1; i <= 300; i++ {
+						var b []byte
+						if i == 1 || (c == 1 && i%2 == 1) { // client 1: every other message is the template again
+							b = absv.Message(1, uint32(100000*c+i), 1, 2, absv.TemplateBody(256, []absv.Spec{{ID: 4, Len: 1}, {ID: 82, Len: 65535}}))
+						} else {
+							b = absv.Message(2, uint32(100000*c+i), 1, 256, []byte{byte(i), 3, byte(c), byte(i >> 8), byte(i)})
+						}
+						ru.w.Emit(vt.Ev{"e": "Write", "c": c, "i": i})
+						if _, err := conn.Write(b); err != nil {
+							return
+						}
+						if i == 1 {
+							time.Sleep(3 * time.Millisecond) // every client's template is in before data flows
+						}
+						if proto == "udp" && i%8 == 0 {
+							time.Sleep(200 * time.Microsecond)
+						}
+					}
+					if proto == "udp" {
+						time.Sleep(5 * time.Millisecond)
+					}
+					ru.w.Emit(vt.Ev{"e": "ClientClose", "c": c})
+				}(c)
+				evals += 300
+			}
+			wg.Wait()
+			ru.quiesce()
+			w.Emit(vt.Ev{"e": "Final"})
+			ru.stop()
+			ru.afterStop()
+			scen++
+		}
+	}
+	// (F) a message that arrives in two pieces, then silence for longer than any plausible read timeout, then more
+	// messages on the same connection: a healthy connection is never dropped
+	for _, proto := range []string{"tcp", "tls"} {
+		arm(w, "scenario F "+proto)
+		ru := start(w, proto, 1)
+		conn, err := ru.dial()
+		if err == nil {
+			wr := func(i int, split bool) bool {
+				b := msg(1, i)
+				ru.w.Emit(vt.Ev{"e": "Write", "c": 1, "i": i})
+				if split {
+					if _, err := conn.Write(b[:len(b)/2]); err != nil {
+						return false
+					}
+					time.Sleep(20 * time.Millisecond)
+					b = b[len(b)/2:]
+				}
+				_, err := conn.Write(b)
+				return err == nil
+			}
+			ok := wr(1, false) && wr(2, true) && wr(3, false)
+			time.Sleep(2400 * time.Millisecond)
+			for i := 4; ok && i <= 8; i++ {
+				ok = wr(i, i == 6)
+				time.Sleep(30 * time.Millisecond)
+			}
+			evals += 8
+			if !ok {
+				w.Emit(vt.Ev{"e": "WriteFailed", "c": 1}) // the collector dropped a healthy connection
+			}
+			w.Emit(vt.Ev{"e": "ClientClose", "c": 1})
+			conn.Close()
+		}
+		ru.quiesce()
+		w.Emit(vt.Ev{"e": "Final"})
+		ru.stop()
+		ru.afterStop()
+		scen++
 	}
 	// (D) Stop while the consumer is momentarily not receiving: Stop may only return once every reader has
 	// handed over (or dropped) its message; right after it returned, with the consumer still paused,
